@@ -63,21 +63,141 @@ def rebind(original, replacement):
     return n
 
 
-def monitor(owner, name, on_event, rebind_aliases=True):
+# ---- determinism monitor ---------------------------------------------------------------------
+# Every function a recorder is attached to is specified as a function of its arguments.  The recorder therefore also
+# remembers (hashed) what each distinct call answered first and compares every later identical call with it, whatever was
+# called in between; at the end of a shard a sample of the recorded calls is issued again in shuffled order.  A memo whose
+# hit path differs from its miss path, a one-shot iterator consumed by the first call, state left behind by another call:
+# all of them show up as "same call, different outcome" without the workload having to know where to look.
+DET = {'ctx': None, 'recs': [], 'careless': True}
+DET_CAP = 400000
+DET_SAMPLE = 1200
+
+
+class Determinism(object):
+    def __init__(self, label):
+        self.label = label
+        self.first = {}
+        self.sample = []
+        self.seen = 0
+        self.calls = 0
+        self.wrapper = None
+
+    @staticmethod
+    def outcome_key(out):
+        if out.kind == 'raise':
+            return 'raise ' + type(out.value).__name__
+        try:
+            r = repr(out.value)
+        except Exception:
+            return None
+        return None if ' at 0x' in r or len(r) > 4000 else r
+
+    def observe(self, a, k, out):
+        ctx = DET['ctx']
+        if ctx is None:
+            return
+        try:
+            kr = repr((a, sorted(k.items()) if k else ()))
+        except Exception:
+            return
+        if ' at 0x' in kr or len(kr) > 4000:
+            return
+        ok = self.outcome_key(out)
+        if ok is None:
+            return
+        h = hash(kr)
+        prev = self.first.get(h)
+        if prev is None:
+            if len(self.first) < DET_CAP:
+                self.first[h] = hash(ok)
+                self.seen += 1
+                # reservoir sample of distinct calls for the end-of-shard replay
+                if len(self.sample) < DET_SAMPLE:
+                    self.sample.append((a, dict(k), ok))
+                else:
+                    j = (h ^ self.seen * 2654435761) % self.seen
+                    if j < DET_SAMPLE:
+                        self.sample[j] = (a, dict(k), ok)
+            return
+        ctx.counters['eval.determinism-repeat-calls'] += 1
+        if prev != hash(ok):
+            ctx.violation('determinism:%s:same-call-different-outcome' % self.label,
+                          {'fn': self.label, 'args': kr[:300]}, 'the first answer', ok[:200])
+
+    # ---- the careless caller: now and then the previous call is repeated with one argument of the wrong type or an
+    # extreme value, straight on the real function (nothing is judged on it; every later call is)
+    JUNK = [None, 0, 1, -1, 1.5, float('nan'), float('inf'), '', ' ', 'x', b'x', [], {}, True, 10 ** 30, -0.0]
+
+    def careless(self, raw, a, k):
+        self.calls += 1
+        if self.calls % 701 or not a:
+            return
+        ctx = DET['ctx']
+        n = self.calls // 701
+        i = n % len(a)
+        junk = self.JUNK[(n // len(a)) % len(self.JUNK)]
+        if n % 5 == 0:
+            junk = [a[i]]
+        elif n % 5 == 1 and isinstance(a[i], str):
+            junk = a[i].encode('utf-8', 'replace')
+        elif n % 5 == 2 and isinstance(a[i], str) and a[i].isdigit():
+            junk = int(a[i])
+        elif n % 5 == 2 and isinstance(a[i], (int, float)) and not isinstance(a[i], bool):
+            junk = str(a[i])
+        b = list(a)
+        b[i] = junk
+        try:
+            raw(*b, **k)
+        except BaseException as e:       # noqa - refused, as expected; only a hang or a crash of the interpreter would matter
+            if isinstance(e, (KeyboardInterrupt, SystemExit, MemoryError)):
+                raise
+        ctx.counters['eval.careless-caller-calls'] += 1
+
+    def replay(self, rnd):
+        ctx = DET['ctx']
+        calls = list(self.sample)
+        rnd.shuffle(calls)
+        for a, k, ok in calls:
+            call(self.wrapper, *a, **k)
+            ctx.counters['eval.determinism-replayed-calls'] += 1
+
+
+def replay_recorded(rnd):
+    """issue a sample of every recorder's distinct calls again (end of shard)"""
+    for rec in DET['recs']:
+        rec.replay(rnd)
+
+
+def monitor(owner, name, on_event, rebind_aliases=True, pure=True):
     """Wrap owner.name (module or class attribute); on_event(args, kwargs, outcome)."""
     original = getattr(owner, name) if not isinstance(owner, type) else owner.__dict__[name]
     raw = original
+    det = None
+    if pure and DET['ctx'] is not None:
+        det = Determinism('%s.%s' % (getattr(owner, '__name__', owner), name))
+        DET['recs'].append(det)
 
     @functools.wraps(raw)
     def wrapper(*a, **k):
+        if det is not None and DET['careless']:
+            det.careless(raw, a, k)
         try:
             r = raw(*a, **k)
         except Exception as e:  # noqa
-            on_event(a, k, Outcome('raise', e))
+            o = Outcome('raise', e)
+            if det is not None:
+                det.observe(a, k, o)
+            on_event(a, k, o)
             raise
-        on_event(a, k, Outcome('return', r))
+        o = Outcome('return', r)
+        if det is not None:
+            det.observe(a, k, o)
+        on_event(a, k, o)
         return r
     wrapper.__vf_original__ = raw
+    if det is not None:
+        det.wrapper = wrapper
     if rebind_aliases and not isinstance(owner, type):
         rebind(original, wrapper)
     setattr(owner, name, wrapper)
